@@ -88,19 +88,13 @@ func c10R1(a *A, cd *codec) {
 			a.check(ok, rule, "ordinal@"+fn+"[decode]", w.posOf(rl.Len), "type, metadata and signedness taken at the column ordinal c",
 				"the decoder call mixes ordinals: "+strings.Join(facts, "; ")+" - with a partial row image or NULLs the value is decoded with another column's type or signedness")
 			// the ColumnData of this iteration: name and type at the same ordinal
-			var ctor *ssa.Call
-			instrs(rl.Fn, func(in ssa.Instruction) {
-				if c, isC := in.(*ssa.Call); isC && c.Common().StaticCallee() != nil && c.Common().StaticCallee().Name() == "newColumnData" && rl.Header.Dominates(c.Block()) {
-					ctor = c
-				}
-			})
-			if a.need(ctor != nil, rule, "newColumnData call in "+fn) {
-				cargs := ctor.Common().Args
-				okName := invokeOnColumn(cargs[0], "Field", rl.C)
-				_, org := convsBack(cargs[1])
+			co := rl.columnObject()
+			if a.need(co != nil && co.Name != nil && co.Type != nil, rule, "ColumnData of the iteration (constructor call or composite literal) in "+fn) {
+				okName := invokeOnColumn(co.Name, "Field", rl.C)
+				_, org := convsBack(co.Type)
 				p, okType := indexedBy(org, rl.C)
 				okType = okType && strings.HasSuffix(p, "tableMap.Types")
-				a.check(okName && okType, rule, "ordinal@"+fn+"[column]", w.posOf(ctor), "column name = Columns()[c].Field(), type = Types[c]",
+				a.check(okName && okType, rule, "ordinal@"+fn+"[column]", w.posOf(co.Pos), "column name = Columns()[c].Field(), type = Types[c]",
 					fmt.Sprintf("the delivered column's name/type are not taken at the ordinal c (name ok=%v, type ok=%v)", okName, okType))
 			}
 		}
